@@ -540,5 +540,5 @@ func TestVerif_C23(t *testing.T) {
 	defer s.Finish()
 	s.EnableSentinel()
 	logger.Disable()
-	kit.Run(s, "accumulator_and_sealer_vs_model", kit.N{Quick: 3000, Thorough: 80000}, c23Gen, c23Check)
+	kit.Run(s, "accumulator_and_sealer_vs_model", kit.N{Quick: 2500, Thorough: 60000}, c23Gen, c23Check)
 }
